@@ -5,7 +5,11 @@
 
 package imapclient
 
-import "github.com/emersion/go-imap/v2"
+import (
+	"crypto/tls"
+
+	"github.com/emersion/go-imap/v2"
+)
 
 // ---------------------------------------------------------------------------
 // C11: no response parser or handler of *Client panics on any decoder outcome
@@ -50,3 +54,28 @@ func mirrorOK(c *Client) bool {
 //@ func (c *Client) handleFlags() (err error)
 //@   ensures c.state == old(c.state) && mirrorOK(c)
 //@   ensures c.mailbox != nil ==> c.mailbox.Name == old(c.mailbox.Name) && c.mailbox.NumMessages == old(c.mailbox.NumMessages) && __same(c.mailbox.PermanentFlags, old(c.mailbox.PermanentFlags))
+
+// Panics and assertions that do not depend on server input.
+
+//@ func (c *Client) Store(numSet imap.NumSet, store *imap.StoreFlags, options *imap.StoreOptions) (result *FetchCommand)
+//@   panics assumed-unreachable the caller passes one of the three defined StoreFlagsOp values (API misuse, not server input)
+
+//@ func (c *Client) WaitGreeting() (err error)
+//@   panics assumed-unreachable artefact of go/ssa's lowering of a blocking select without default
+
+//@ func (c *Client) upgradeStartTLS(tlsConfig *tls.Config)
+//@   panics assumed-unreachable io.CopyN of exactly Buffered() bytes from a bufio.Reader into a bytes.Buffer cannot fail (stdlib contract)
+
+//@ func (c *Client) handleESearch() (err error)
+//@   assume-kind assert-type findPendingCmdFunc returns a command for which the predicate (which tests this very type) returned true; higher-order contract not expressible
+
+//@ func (c *Client) handleMetadata() (err error)
+//@   assume-kind assert-type findPendingCmdFunc returns a command for which the predicate (which tests this very type) returned true; higher-order contract not expressible
+
+//@ func (c *Client) handleQuotaRoot() (err error)
+//@   assume-kind assert-type findPendingCmdFunc returns a command for which the predicate (which tests this very type) returned true; higher-order contract not expressible
+
+//@ func (c *Client) readResponseData(typ string) (err error)
+//@   requires len(typ) > 0
+
+var _ *tls.Config // used by //@ func headers
